@@ -21,7 +21,7 @@ func init() {
 		explanation: "Structural clauses of 'results in rank order': (R1) the packed sort key has as many slots as the longest criteria list any parser accepts, slot index = len-1-criterion index, one writer of sortCriteria; " +
 			"(R2) the two build-tagged compareRanks siblings agree: exactly one file per GOARCH, the unsafe uint64 variant only on little-endian targets with an 8-byte key read from slot 0, the generic variant compares slots from the highest index down with '<' → true / '>' → false of (first, second), both end in the same index tiebreak; " +
 			"(R3) per-partition sort and k-way merge use the same comparator and the same `sorted` condition, the tac flag selects the matching comparator on both sides, an empty pattern uses the pass-through merger; (R4) every criteria list starts with the score; (R5) partial results are stored at the partition index carried in the message, which is the spawning loop's index.",
-		notDecided: "the value of each rank key (buildResult arithmetic); pass-through (--no-sort/--tac/--tail) index arithmetic in Merger.Get; permutation property of the lazy merge",
+		notDecided:  "the value of each rank key (buildResult arithmetic); pass-through (--no-sort/--tac/--tail) index arithmetic in Merger.Get; permutation property of the lazy merge",
 		assumptions: []string{"byte order per GOARCH is a fixed table in the checker (big-endian: mips, mips64, ppc64, s390x, and ppc/sparc/sparc64/armbe/arm64be if they ever appear)"},
 	})
 }
